@@ -191,6 +191,28 @@ def rule_counter(ctx) -> RuleResult:
         if v != lit:
             res.report(f"{f.qualname}|counter-literal|{norm(n)[:30]}", f.where(n), f.qualname,
                        f"the counter is appended as {lit!r} but recognised by {norm(n)}")
+    # belief clause: "the counts come last" is only true under the condition that appended them.  Every read of `<x>["intermediates"][-1]`
+    # in the combine / finalize stages sits under a guard that establishes the counter: a comparison of <blueprint>.min_count (or a local
+    # bound to it), or the recognition of the counter kernel by name -- otherwise the last intermediate is a VALUE (max, prod, all, nanlast ...)
+    # and treating 0 there as "no members" drops or masks genuine results.
+    from ..astutil import guard_facts
+    for q, g in sorted(prog.funcs.items()):
+        if not q.startswith("core.") or isinstance(g.node, ast.Lambda):
+            continue
+        pmg = None
+        for x in walk_own(g.node):
+            if not (isinstance(x, ast.Subscript) and isinstance(x.ctx, ast.Load) and isinstance(x.slice, ast.UnaryOp) and isinstance(x.slice.op, ast.USub)
+                    and isinstance(x.slice.operand, ast.Constant) and x.slice.operand.value == 1 and norm(x.value).replace('"', "'").endswith("['intermediates']")):
+                continue
+            pmg = pmg or parents_map(g.node)
+            facts = guard_facts(x, pmg)
+            ok = any(("min_count" in at) or ("nanlen" in at) for at, _pol in facts)
+            res.inst(f"{q}: read of {norm(x)[:40]} under a counter-establishing guard: {ok} ({[at for at, _ in facts][:2]})", f"{q}|last|{getattr(x, 'lineno', 0)}")
+            if not ok:
+                res.report(f"{q}|last-intermediate-taken-for-counts", g.where(x), q,
+                           f"'{norm(x)[:50]}' is read without a guard on <blueprint>.min_count / the counter kernel: the last intermediate is the validity counter only "
+                           "when one was appended; for max, min, prod, all, nanfirst, nanlast ... it is the value itself, and a partial result of exactly 0 / False is "
+                           "then taken for 'no members'")
     return res
 
 
